@@ -33,6 +33,7 @@ type Env struct {
 	depth  int
 	// allocation counter at the entry of the loop whose invariant is being evaluated (loopfresh)
 	loopAlloc *smt.Term
+	inQuant   bool // evaluating under a binder: side assumptions must not be emitted (they would capture bound variables)
 }
 
 type Macro struct {
@@ -120,8 +121,10 @@ func (env *Env) val(v *SVal) *SVal {
 		t := env.e.load(env.st, v.Loc)
 		// Go-level type invariant of the loaded value (0 <= len <= cap < 2^40, allocated, typed): always true of a
 		// well-typed heap, so it may be assumed wherever a contract reads memory
-		if wf := env.e.wellFormedAt(t, v.Loc.Typ, env.st, locHeap(v.Loc)); !wf.IsTrue() {
-			env.e.assume(env.st, wf)
+		if !env.inQuant {
+			if wf := env.e.wellFormedAt(t, v.Loc.Typ, env.st, locHeap(v.Loc)); !wf.IsTrue() {
+				env.e.assume(env.st, wf)
+			}
 		}
 		return &SVal{T: t, Typ: v.Loc.Typ, Loc: v.Loc}
 	}
@@ -656,6 +659,7 @@ func (env *Env) binop(x *SExpr) *SVal {
 func (env *Env) quant(x *SExpr) *SVal {
 	c := env.e.C
 	sub := env.child()
+	sub.inQuant = true
 	var bound []*smt.Term
 	var guards []*smt.Term
 	for _, b := range x.Binders {
